@@ -44,7 +44,10 @@ let tokens_of (s : Stdlib.String.t) : token list =
   List.map (fun p ->
     match String.split_on_char ':' p with
     | [ty; l; o] ->
-      let t = try Hashtbl.find ttype_tbl ty with Not_found -> failwith ("unknown token type " ^ ty) in
+      (* a type name that is no token constant (the unrepaired lexer emits the empty type for a lone
+         `|`, `&`, `^`, `*`, `<<`, `>>`; C01 turns them into ILLEGAL) is in no table of the parser and
+         is compared with no constant: it behaves exactly as ILLEGAL *)
+      let t = try Hashtbl.find ttype_tbl ty with Not_found -> Hashtbl.find ttype_tbl "ILLEGAL" in
       { typ = t; lit = bytes_of_hex l; off = n_of_int (int_of_string o) }
     | _ -> failwith "bad token") (split_on ';' s)
 
